@@ -128,7 +128,7 @@ fn decl_strategy(id: u32) -> impl Strategy<Value = Decl> {
     let doc = proptest::collection::vec(proptest::collection::vec(proptest::collection::vec(word(), 1..5), 1..3), 0..3);
     (
         (prop::bool::weighted(0.1), 0usize..7, segs, any::<bool>()),
-        (proptest::collection::vec(0u8..2, 0..3), versions, prop::bool::weighted(0.3), proptest::option::weighted(0.35, (prop_oneof![1u32..200, 200u32..1024, 1024u32..100000], any::<bool>()))),
+        (proptest::collection::vec(0u8..2, 0..3), versions, prop::bool::weighted(0.3), proptest::option::weighted(0.35, (prop_oneof![1 => Just(0u32), 3 => 1u32..200, 3 => 200u32..1024, 3 => 1024u32..100000], any::<bool>()))),
         (prop::bool::weighted(0.2), prop::bool::weighted(0.2), proptest::option::weighted(0.5, 0u8..N_QUERY), any::<bool>()),
         (0u8..8, 0u8..12, 0u8..4, prop::bool::weighted(0.2)),
         (doc, 0u8..4, any::<bool>()),
